@@ -24,6 +24,7 @@ func checkC01(w *World, r *Report) {
 	r.Rule("R01.4", "multiplexer configuration admissible", 2)
 	r.Rule("R01.5", "websocket Write splits without gaps or overlaps", 1)
 	r.Rule("R01.6", "Write methods report the full count on success", 4)
+	r.Rule("R01.9", "a websocket read limit, if any, admits the largest message the tunnel's own Write sends", 1)
 	r.Rule("R01.8", "receive/send buffers that are written under a mutex are written under the same mutex everywhere", 3)
 	r.Rule("R01.7", "every serving goroutine works on the connection accepted for it (no shared re-assigned variable)", 1)
 
@@ -33,6 +34,7 @@ func checkC01(w *World, r *Report) {
 	c01Smux(w, r)
 	c01WsWrite(w, r)
 	c01WriteCounts(w, r)
+	c01WsReadLimit(w, r)
 	ruleLocksetConsistent(w, r, "R01.8", func(p string) bool { return connPkgs(p) || p == modPath+"/internal/streams/dns/util" }, "a reader overlapping a writer of the same buffer sees it half-updated: bytes delivered twice, lost or torn")
 	ruleLoopVarEscape(w, r, "R01.7", connPkgs, "the goroutine started for connection N reads the variable after the loop stored connection N+1 into it: N is never served and N+1 is served twice, its bytes torn between two handlers")
 }
@@ -603,4 +605,36 @@ func c01WsWrite(w *World, r *Report) {
 		bad = "on success Write does not report len(p) of the caller's buffer"
 	}
 	r.Check(bad == "", "R01.5", key, w.Pos(m.Pos()), "messages carry p[:K], the loop continues with p[K:], the remainder is sent whole, len(p) is reported", bad)
+}
+
+// c01WsReadLimit: R01.9 — WebsocketTunnelConnection.Write sends messages of up to buffers.BufferSize bytes
+// (R01.5). gorilla's SetReadLimit makes the receiving end fail the connection on any larger message — and
+// the tunnel's Read turns that failure into a clean io.EOF. A limit below the writer's chunk size therefore
+// truncates bulk transfers silently.
+func c01WsReadLimit(w *World, r *Report) {
+	chunk, ok := intConstOf(w, "internal/util/buffers", "BufferSize")
+	if !ok {
+		r.Undecided("R01.9", "call:websocket.SetReadLimit", "-", "anchor unresolved: buffers.BufferSize")
+		return
+	}
+	n := 0
+	var bad []string
+	for fn := range allModuleFuncs(w, w.SSA()) {
+		for _, c := range callsIn(fn) {
+			f := sCallee(c)
+			if f == nil || f.Name() != "SetReadLimit" || f.Pkg() == nil || !strings.Contains(f.Pkg().Path(), "gorilla/websocket") {
+				continue
+			}
+			n++
+			args := c.Common().Args
+			v, isC := constIntVal(args[len(args)-1])
+			if !isC {
+				bad = append(bad, fmt.Sprintf("%s: the websocket read limit is not a constant: it cannot be compared with the writer's message size", w.Pos(c.Pos())))
+			} else if v > 0 && v < chunk {
+				bad = append(bad, fmt.Sprintf("%s: the websocket read limit %d is below the %d bytes a single message of the tunnel's own Write can carry (a full multiplexer frame is payload plus its 8-byte header): the receiver fails the connection on such a message and Read reports a clean end-of-stream — a bulk transfer is cut short without an error", w.Pos(c.Pos()), v, chunk))
+			}
+		}
+	}
+	sort.Strings(bad)
+	r.Check(len(bad) == 0, "R01.9", "call:websocket.SetReadLimit", "-", fmt.Sprintf("%d read limit(s) set; none below the writer's message size of %d", n, chunk), strings.Join(bad, "; "))
 }
